@@ -85,6 +85,10 @@ def body_L1(ctx, payload):
     ejson._dumps_bytes = stub_dumps
     try:
         f = RecText() if text else RecBinary()
+        mode_attr = ctx.shard.get("mode_attr")
+        if mode_attr is not None:
+            # e.g. codecs.StreamWriter over a binary file: accepts only str, reports mode "wb"
+            f.mode = mode_attr
 
         def my_default(o):
             return None
@@ -237,7 +241,13 @@ def body_E1(ctx):
 
     b = io.BytesIO()
     t = io.StringIO()
-    how = ctx.choose(3, "how the destination is made")
+    how = ctx.choose(4, "how the destination is made")
+    if how == 3:
+        import codecs
+
+        t = None
+        raw_t = io.BytesIO()
+        tw = codecs.getwriter("utf-8")(raw_t)  # text-only file object whose .mode is that of the binary stream
     if how == 0:
         db = FileDestination(file=b, json_default=my_default)
         dt = FileDestination(file=t, json_default=my_default)
@@ -249,6 +259,9 @@ def body_E1(ctx):
 
         db = FileDestination(file=b, encoder=Enc)
         dt = FileDestination(file=t, encoder=Enc)
+    elif how == 3:
+        db = FileDestination(file=b, json_default=my_default)
+        dt = FileDestination(file=tw, json_default=my_default)
     else:
         from eliot import to_file
 
@@ -269,7 +282,8 @@ def body_E1(ctx):
         ctx.fail("line is not valid JSON for %s: %r" % (name, e))
     ctx.check(isinstance(decoded, dict), "line does not decode to an object")
     ctx.check(_same(decoded, exp_message), "decoded line differs from the logged message for %s depth %d: %r", name, depth, decoded if depth < 4 else "...")
-    ctx.check(t.getvalue() == raw.decode("utf-8"), "text-mode and binary-mode files differ for %s", name)
+    text_content = t.getvalue() if t is not None else raw_t.getvalue().decode("utf-8")
+    ctx.check(text_content == raw.decode("utf-8"), "text-mode and binary-mode files differ for %s (text file received %r)", name, text_content[:80])
     if custom or name in ("path", "set", "set-mixed", "set-none", "set-empty", "complex"):
         ctx.check(len(calls) >= 1, "json_default was not consulted for %s", name)
     elif which < len(CORNERS):
@@ -295,11 +309,11 @@ OBLIGATIONS = [
         "S",
         desc="file protocol for every codec output: one write(payload+newline) then one flush; same message object and json_default reach the codec; text mode gets the decoded payload",
         functions=["FileDestination.__new__", "FileDestination.__call__", "eliot.json._dumps_unicode"],
-        shards={"quick": [{"text": t, "custom_default": c} for t in (0, 1) for c in (0, 1)]},
+        shards={"quick": [{"text": t, "custom_default": c} for t in (0, 1) for c in (0, 1)] + [{"text": 1, "custom_default": 0, "mode_attr": "wb"}, {"text": 1, "custom_default": 0, "mode_attr": "w"}, {"text": 0, "custom_default": 0, "mode_attr": "wb"}, {"text": 0, "custom_default": 0, "mode_attr": "rb+"}]},
         twin=[{"text": 1, "custom_default": 0}],
         timeout={"quick": 200, "thorough": 400},
         path_timeout=60,
-        bounds={"quick": "codec output: any ASCII bytes without newline, length <= 6; binary and text recording files; default and custom json_default"},
+        bounds={"quick": "codec output: any ASCII bytes without newline, length <= 6; binary and text recording files, with and without a mode attribute (incl. a text-only file reporting mode \"wb\", as codecs writers do); default and custom json_default"},
         assumptions=["stub: eliot._output._dumps_bytes / eliot.json._dumps_bytes return an arbitrary payload (ASCII, no newline) and record their arguments"],
     ),
     Ob(
@@ -312,6 +326,6 @@ OBLIGATIONS = [
         shards={"quick": [{"deep": 50}], "thorough": [{"deep": 50}, {"deep": 200}]},
         twin=[{"deep": 50, "twin_label": "rich-nested"}],
         timeout={"quick": 100, "thorough": 300},
-        bounds={"quick": "22 JSON-native corner classes + 8 rich values (path, date, time, 4 sets, complex) + custom json_default, nesting depth {0,1,3,50} in lists or dicts, binary and text files, made by FileDestination(json_default=) / FileDestination(encoder=) / to_file() - witnesses per class, not a for-all claim"},
+        bounds={"quick": "22 JSON-native corner classes + 8 rich values (path, date, time, 4 sets, complex) + custom json_default, nesting depth {0,1,3,50} in lists or dicts, binary and text files, made by FileDestination(json_default=) / FileDestination(encoder=) / to_file() / over a codecs.getwriter text stream - witnesses per class, not a for-all claim"},
     ),
 ]
